@@ -410,14 +410,18 @@ theorem stepOnce_payload (cfg : Cfg) (urlOk : Bool → Bytes → Bool) (st : St)
       | (.needs p', ev) => .stop { st := { st with payload := some p' }, evs := ev, rest := [], err := none }
       | (.complete rest, ev) => .cont (afterBody st) rest ev
       | (.err e true, ev) => .stop { st := { st with failed := true }, evs := ev ++ [.payloadErr e], rest := [], err := some e }
-      | (.err e false, ev) => .stop { st := afterBody st, evs := ev ++ [.payloadErr e], rest := [], err := none } := by
+      | (.err e false, ev) => .stop { st := { afterBody st with shouldClose := true }, evs := ev ++ [.payloadErr e], rest := [], err := none } := by
   unfold stepOnce afterBody
   simp only [hp]
   rcases payloadFeed cfg p d with ⟨r, ev⟩
   cases r with
   | needs p' => rfl
   | complete rest => rfl
-  | err e rr => cases rr <;> rfl
+  | err e rr =>
+    cases rr
+    · simp only []
+      cases st.pendingUpgrade <;> rfl
+    · rfl
 
 /-- every body-parser state that the run on `d` goes through satisfies `G` -/
 def GoodRun (cfg : Cfg) (urlOk : Bool → Bytes → Bool) (G : PState → Prop) : Nat → St → Bytes → Prop
